@@ -391,6 +391,8 @@ def ob_d(ob):
     res = chrun.run_slices(slices + [tw], jobs=3)
     for sl, r in zip(slices + [tw], res):
         ob.paths += 1
+        ob.ch_conditions += 1
+        ob.ch_definite += r["verdict"] in ("confirmed", "counterexample")
         ob.sample({"slice": sl.name, "verdict": r["verdict"], "seconds": r["seconds"], "call": r.get("call")})
         if sl.name == "twin_seed":
             ob.require(r["verdict"] == "counterexample", "vacuity twin not refuted: %s" % r["raw"][-300:])
